@@ -130,7 +130,7 @@ func (fr *frame) callCommon(st *State, cc *ssa.CallCommon, args []Val, fv Val, p
 	if cc.IsInvoke() {
 		recv := fv.(*IfaceV)
 		fr.safety(st, "nil", pos, "call", u.C.Ne(recv.Tag, u.C.BVu(0, 32)))
-		key := "(" + types.TypeString(cc.Value.Type(), nil) + ")." + cc.Method.Name()
+		key := "(" + types.TypeString(types.Unalias(cc.Value.Type()), nil) + ")." + cc.Method.Name()
 		full := append([]Val{recv}, args...)
 		if h := u.E.intrinsics[key]; h != nil {
 			return h(fr, st, nil, full, pos)
@@ -475,9 +475,39 @@ func (fr *frame) applyContract(st *State, bc *BoundContract, args []Val, pos tok
 		u.oblige(st, "safety", "call may panic "+site, pos, c.False)
 	}
 	u.havocRegion(st, reg, key)
+	// native ghost effects: appends s, x  (s' = s ++ [x], everything else of s unchanged)
+	for _, ap := range bc.Appends {
+		penv := u.newSpecEnv(bc, st, pre, args, nil)
+		sv := penv.eval(ap[0]).(*SliceV)
+		xv := penv.eval(ap[1])
+		et := penv.typeOf(ap[0]).Underlying().(*types.Slice).Elem()
+		lenCell := c.Fld(sv.Base, fGhostLen)
+		fr.frameCheck(st, lenCell, types.Typ[types.Int], pos)
+		fr.frameCheck(st, c.Idx(sv.Base, sv.Len), et, pos)
+		if _, isIface := et.Underlying().(*types.Interface); isIface {
+			if _, ok := xv.(*IfaceV); !ok {
+				xv = u.makeIface(st, xv, penv.typeOf(ap[1]))
+			}
+		}
+		u.store(st, c.Idx(sv.Base, sv.Len), et, xv)
+		u.writeCell(st, "bv64", lenCell, c.Add(sv.Len, c.BVu(1, 64)))
+	}
 	// results
 	var results []Val
 	sig := bc.Sig
+	defer func() {
+		// native effect: copies dst, src, n  (dst[0:n] = src[0:n]; n may mention the results)
+		for _, cp := range bc.Copies {
+			penv := u.newSpecEnv(bc, st, pre, args, results)
+			dv := penv.eval(cp[0]).(*SliceV)
+			srcEnv := u.newSpecEnv(bc, pre, pre, args, results)
+			sv := srcEnv.eval(cp[1]).(*SliceV)
+			n := penv.to64(cp[2])
+			et := penv.typeOf(cp[0]).Underlying().(*types.Slice).Elem()
+			fr.frameCheckRange(st, dv.Base, dv.Off, n, et, pos)
+			u.copyElems(st, dv.Base, dv.Off, pre, sv.Base, sv.Off, n, et)
+		}
+	}()
 	for i := 0; i < sig.Results().Len(); i++ {
 		rt := sig.Results().At(i).Type()
 		var v Val
